@@ -225,8 +225,10 @@ func (vc *VC) store(h *Heap, t types.Type, r, o string, v *Val) {
 // memcpy copies n cells laid out as l (repeated) from (src heap, sr, so) to (dst heap h, dr, do).
 // ncells < 0 means symbolic count nTerm.
 func (vc *VC) memcpy(h *Heap, dr, do string, sh *Heap, sr, so string, l *Layout, nTerm string, ncells int64) {
-	if ncells >= 0 && ncells <= 24 {
-		vc.copyCells(h, dr, do, sh, sr, so, l, 0)
+	if ncells >= 0 && ncells <= 24 && l.N > 0 && ncells%l.N == 0 {
+		for base := int64(0); base < ncells; base += l.N {
+			vc.copyCells(h, dr, do, sh, sr, so, l, base)
+		}
 		return
 	}
 	comps := []string{}
